@@ -1,11 +1,13 @@
 //! Deterministic simulation harness for feather-build-rs. One binary, fronted by /verif/check.
 
 mod bridge;
+mod c02;
 mod c03;
 mod c04;
 mod c05;
 mod c12;
 mod c16;
+mod c13;
 mod c17;
 mod c19;
 mod choice;
@@ -14,6 +16,7 @@ mod engine;
 mod proj;
 mod refdiff;
 mod refmap;
+mod refmerge;
 mod refmvn;
 mod rng;
 mod sandbox;
@@ -90,6 +93,7 @@ fn drive<E: Engine>(e: &E, a: &Args, digest_only: bool) -> i32 {
 
 fn dispatch(a: &Args, digest_only: bool) -> i32 {
     match a.id.as_str() {
+        "C02" => drive(&c02::C02, a, digest_only),
         "C03" => drive(&c03::C03, a, digest_only),
         "C04" => drive(&c04::C04, a, digest_only),
         "C05" => drive(&c05::C05, a, digest_only),
@@ -101,6 +105,7 @@ fn dispatch(a: &Args, digest_only: bool) -> i32 {
             c16::run(&c16::Args16 { tier: a.tier, seed: seed(), workers: a.workers, evidence: a.evidence, digest_only, max_units: a.runs.map(|n| n as usize) })
         }
         "C17" => drive(&c17::C17, a, digest_only),
+        "C13" => drive(&c13::C13, a, digest_only),
         "C19" => drive(&c19::C19, a, digest_only),
         other => {
             eprintln!("harness error: no engine for {other}");
